@@ -150,7 +150,8 @@ pub struct LenCase {
     pub f32: bool,
     pub la: usize,
     pub lb: usize,
-    /// 0 Paired::ci, 1 default+extend
+    /// 0 Paired::ci, 1 default+extend, 2 extend on a state that already holds pairs (fed by extend, extend_tuple and
+    /// append_pair): the error still carries the two lengths of the rejected call
     pub entry: u8,
 }
 pub fn len_case(c: &LenCase, obs: &mut Obs) -> PResult {
@@ -161,12 +162,19 @@ pub fn len_case(c: &LenCase, obs: &mut Obs) -> PResult {
         let out = call(|| {
             if c.entry == 0 {
                 Paired::<F>::ci(stats_ci::Confidence::new(0.9), &a, &b).map(|_| ())
+            } else if c.entry == 1 {
+                let mut p = Paired::<F>::default();
+                p.extend(&a, &b)
             } else {
                 let mut p = Paired::<F>::default();
+                let (x, y) = (F::from64(3.0), F::from64(1.0));
+                p.extend(&vec![x, y], &vec![y, x])?;
+                p.append_pair(x, y)?;
+                p.extend_tuple(&vec![(y, x), (x, x)])?;
                 p.extend(&a, &b)
             }
         });
-        let entry = ["Paired::ci", "Paired::extend"][c.entry as usize];
+        let entry = ["Paired::ci", "Paired::extend", "Paired::extend on a populated state"][c.entry as usize];
         match out {
             Out::Err(CIError::DifferentSampleSizes(x, y)) => {
                 ensure!(c.la != c.lb, "C04/paired/lengths/spurious", "{entry} with equal lengths {} reports DifferentSampleSizes", c.la);
@@ -488,7 +496,7 @@ pub fn run(run: &mut Run) {
     for f32_ in [false, true] {
         for la in 0..7usize {
             for lb in 0..7usize {
-                for entry in 0..2u8 {
+                for entry in 0..3u8 {
                     run.case("lengths", &LenCase { f32: f32_, la, lb, entry }, len_case);
                 }
             }
